@@ -22,7 +22,9 @@ CONSTANTS MaxJ,       \* jobs are 1..MaxJ, enqueued by the caller in this order
           CANCEL,     \* BOOLEAN: environment may cancel the context at any instant
           OUTCOMES,   \* subset of {"ok","err","goexit","cancel"}: what a job body may do
           GATED,      \* TRUE = dispatch only while ongoing < N (the code since fix 4f5337d)
-          DUPDEPS     \* TRUE = dependency lists may name the same job twice
+          DUPDEPS,    \* TRUE = dependency lists may name the same job twice
+          CTX2        \* TRUE = jobs may be enqueued with a second context (Enqueue takes a context per job;
+                      \* Wait watches only the first)
 
 Jobs    == 1..MaxJ
 MaxW    == MaxN + G
@@ -30,9 +32,9 @@ Workers == 1..MaxW
 
 VARIABLES
   \* ---- input, fixed after Init
-  nJ, nW, coe, deps, outcome,
-  \* ---- context
-  ctx,
+  nJ, nW, coe, deps, outcome, jctx,
+  \* ---- contexts: ctx is the one given to Wait (and to the jobs with jctx = 1), ctx2 the other one
+  ctx, ctx2,
   \* ---- caller: cpc \in 1..nJ = next job to Enqueue; nJ+1 = about to call Wait (close);
   \*      nJ+2 = inside Wait's select; nJ+3 = Wait returned.  cres = Wait's result.
   cpc, cres,
@@ -47,14 +49,14 @@ VARIABLES
   \* ---- history, used only by properties and by the refinement mapping
   started, endst, doomedH, owner, ctxAtClose
 
-inVars   == <<nJ, nW, coe, deps, outcome>>
+inVars   == <<nJ, nW, coe, deps, outcome, jctx>>
 callVars == <<cpc, cres>>
 chanVars == <<enq, enqClosed, donec, readyClosed, finClosed>>
 loopVars == <<lpc, ready, ongoing, pending, waiting, enqOpen>>
 jobVars  == <<remaining, consumers, jdone, jerr, invalid, serr>>
 wrkVars  == <<wpc, wjob, wres, nextW>>
 histVars == <<started, endst, doomedH, owner, ctxAtClose>>
-vars == <<inVars, ctx, callVars, chanVars, loopVars, jobVars, wrkVars, histVars>>
+vars == <<inVars, ctx, ctx2, callVars, chanVars, loopVars, jobVars, wrkVars, histVars>>
 
 \* Errors are tokens.
 ErrOf(j)  == <<"E", j>>     \* the error value job j's body returns
@@ -75,14 +77,14 @@ DepChoices(j) ==
      THEN base \cup UNION {{Append(s, s[i]) : i \in DOMAIN s} : s \in base}
      ELSE base
 
-Init ==
+InitBase ==
   /\ nJ = MaxJ
   /\ nW \in 1..MaxN
   /\ coe \in COES
   /\ deps \in [Jobs -> UNION {DepChoices(j) : j \in Jobs}]
   /\ \A j \in Jobs : deps[j] \in DepChoices(j)
   /\ outcome \in [Jobs -> OUTCOMES]
-  /\ ctx = "live"
+  /\ ctx = "live" /\ ctx2 = "live"
   /\ cpc = 1 /\ cres = <<"none">>
   /\ enq = <<>> /\ enqClosed = FALSE /\ donec = <<>> /\ readyClosed = FALSE /\ finClosed = FALSE
   /\ lpc = "sel" /\ ready = <<>> /\ ongoing = 0 /\ pending = 0 /\ waiting = 0 /\ enqOpen = TRUE
@@ -94,6 +96,8 @@ Init ==
   /\ started = [j \in Jobs |-> 0] /\ endst = [j \in Jobs |-> "none"] /\ doomedH = {}
   /\ owner = [j \in Jobs |-> "caller"] /\ ctxAtClose = FALSE
 
+Init == InitBase /\ jctx \in [Jobs -> IF CTX2 THEN {1, 2} ELSE {1}]
+
 ----------------------------------------------------------------------------
 (* Environment: cancellation of the context.                               *)
 
@@ -102,13 +106,20 @@ EndedJ(j) == endst[j] # "none"
 
 \* doomedH records, at the instant of cancellation, the jobs the property C09
 \* says can never start any more (see JobSys.tla).
-DoomedNow == {j \in AJobs : started[j] = 0 /\
+DoomedNowAll == {j \in AJobs : started[j] = 0 /\
                   (j >= cpc \/ (\E d \in RangeOf(deps[j]) : ~EndedJ(d)) \/ NRunning = nW)}
+DoomedNowFor(c) == {j \in DoomedNowAll : jctx[j] = c}
+DoomedNow == doomedH \cup DoomedNowFor(1)
 
 Cancel ==
   /\ CANCEL /\ ctx = "live" /\ ctx' = "done"
   /\ doomedH' = DoomedNow
-  /\ UNCHANGED <<inVars, callVars, chanVars, loopVars, jobVars, wrkVars, started, endst, owner, ctxAtClose>>
+  /\ UNCHANGED <<inVars, ctx2, callVars, chanVars, loopVars, jobVars, wrkVars, started, endst, owner, ctxAtClose>>
+
+Cancel2 ==
+  /\ CANCEL /\ CTX2 /\ ctx2 = "live" /\ ctx2' = "done"
+  /\ doomedH' = doomedH \cup DoomedNowFor(2)
+  /\ UNCHANGED <<inVars, ctx, callVars, chanVars, loopVars, jobVars, wrkVars, started, endst, owner, ctxAtClose>>
 
 ----------------------------------------------------------------------------
 (* Caller.                                                                  *)
@@ -118,20 +129,18 @@ CallerEnqueue ==
   /\ cpc \in AJobs /\ Len(enq) < 1 /\ ~enqClosed
   /\ enq' = Append(enq, cpc) /\ cpc' = cpc + 1
   /\ owner' = [owner EXCEPT ![cpc] = "chan"]
-  /\ UNCHANGED <<inVars, ctx, cres, enqClosed, donec, readyClosed, finClosed, loopVars, jobVars, wrkVars,
-                 started, endst, doomedH, ctxAtClose>>
+  /\ UNCHANGED <<inVars, ctx, ctx2, cres, enqClosed, donec, readyClosed, finClosed, loopVars, jobVars, wrkVars, started, endst, doomedH, ctxAtClose>>
 
 \* Wait, line 519: close(s.enqueuec)
 CallerWaitClose ==
   /\ cpc = nJ + 1 /\ enqClosed' = TRUE /\ cpc' = nJ + 2
   /\ ctxAtClose' = (ctx = "done")
-  /\ UNCHANGED <<inVars, ctx, cres, enq, donec, readyClosed, finClosed, loopVars, jobVars, wrkVars,
-                 started, endst, doomedH, owner>>
+  /\ UNCHANGED <<inVars, ctx, ctx2, cres, enq, donec, readyClosed, finClosed, loopVars, jobVars, wrkVars, started, endst, doomedH, owner>>
 
 \* Wait, lines 521-522: case <-ctx.Done()
 CallerWaitCtx ==
   /\ cpc = nJ + 2 /\ ctx = "done" /\ cres' = <<"ctx">> /\ cpc' = nJ + 3
-  /\ UNCHANGED <<inVars, ctx, chanVars, loopVars, jobVars, wrkVars, histVars>>
+  /\ UNCHANGED <<inVars, ctx, ctx2, chanVars, loopVars, jobVars, wrkVars, histVars>>
 
 \* Wait, lines 523-532: case <-s.finishedc; c is the value of the context Wait observes
 CallerWaitFinAs(c) ==
@@ -139,7 +148,7 @@ CallerWaitFinAs(c) ==
   /\ cres' = IF serr # <<>> THEN <<"errs", serr>> ELSE IF c = "done" THEN <<"ctx">> ELSE <<"nil">>
   /\ cpc' = nJ + 3
   /\ UNCHANGED <<inVars, chanVars, loopVars, jobVars, wrkVars, histVars>>
-CallerWaitFin == CallerWaitFinAs(ctx) /\ UNCHANGED ctx
+CallerWaitFin == CallerWaitFinAs(ctx) /\ UNCHANGED <<ctx, ctx2>>
 
 ----------------------------------------------------------------------------
 (* Scheduler loop (scheduler.go:340-509).                                   *)
@@ -155,8 +164,7 @@ LoopDispatch(w) ==
   /\ ready' = Tail(ready) /\ ongoing' = ongoing + 1
   /\ lpc' = LoopAfter(pending, enqOpen)
   /\ owner' = [owner EXCEPT ![Head(ready)] = "worker"]
-  /\ UNCHANGED <<inVars, ctx, callVars, chanVars, pending, waiting, enqOpen, jobVars, wres, nextW,
-                 started, endst, doomedH, ctxAtClose>>
+  /\ UNCHANGED <<inVars, ctx, ctx2, callVars, chanVars, pending, waiting, enqOpen, jobVars, wres, nextW, started, endst, doomedH, ctxAtClose>>
 
 RECURSIVE AddDeps(_, _, _, _, _)
 \* lines 430-439: fold over the dependency list ds of job j;
@@ -182,15 +190,14 @@ LoopRecvEnqueue ==
                        ELSE ready' = ready /\ waiting' = waiting + 1
         /\ lpc' = LoopAfter(pending + 1, enqOpen)
         /\ owner' = [owner EXCEPT ![j] = "loop"]
-  /\ UNCHANGED <<inVars, ctx, callVars, enqClosed, donec, readyClosed, finClosed,
-                 ongoing, enqOpen, jdone, jerr, serr, wrkVars, started, endst, doomedH, ctxAtClose>>
+  /\ UNCHANGED <<inVars, ctx, ctx2, callVars, enqClosed, donec, readyClosed, finClosed, ongoing, enqOpen, jdone, jerr, serr, wrkVars, started, endst, doomedH, ctxAtClose>>
 
 \* select arm 2, lines 420-423, the channel was closed
 LoopRecvClosed ==
   /\ lpc = "sel" /\ enqOpen /\ enq = <<>> /\ enqClosed
   /\ enqOpen' = FALSE
   /\ lpc' = LoopAfter(pending, FALSE)
-  /\ UNCHANGED <<inVars, ctx, callVars, chanVars, ready, ongoing, pending, waiting, jobVars, wrkVars, histVars>>
+  /\ UNCHANGED <<inVars, ctx, ctx2, callVars, chanVars, ready, ongoing, pending, waiting, jobVars, wrkVars, histVars>>
 
 RECURSIVE Notify(_, _, _, _)
 \* lines 479-485; yields <<remaining, ready, waiting>>
@@ -226,29 +233,26 @@ LoopRecvDone ==
                    /\ invalid' = inv2
                    /\ remaining' = nt[1] /\ ready' = nt[2] /\ waiting' = nt[3]
                    /\ lpc' = LoopAfter(pending - 1, enqOpen)
-  /\ UNCHANGED <<inVars, ctx, callVars, enq, enqClosed, readyClosed, finClosed,
-                 enqOpen, consumers, wrkVars, started, endst, doomedH, ctxAtClose>>
+  /\ UNCHANGED <<inVars, ctx, ctx2, callVars, enq, enqClosed, readyClosed, finClosed, enqOpen, consumers, wrkVars, started, endst, doomedH, ctxAtClose>>
 
 \* deferred drain, lines 357-360: for range s.enqueuec {}
 LoopDrainRecv ==
   /\ lpc = "drain" /\ enq # <<>> /\ enq' = Tail(enq)
-  /\ UNCHANGED <<inVars, ctx, callVars, enqClosed, donec, readyClosed, finClosed, loopVars, jobVars, wrkVars, histVars>>
+  /\ UNCHANGED <<inVars, ctx, ctx2, callVars, enqClosed, donec, readyClosed, finClosed, loopVars, jobVars, wrkVars, histVars>>
 
 LoopDrainEnd ==
   /\ lpc = "drain" /\ enq = <<>> /\ enqClosed /\ lpc' = "closeR"
-  /\ UNCHANGED <<inVars, ctx, callVars, chanVars, ready, ongoing, pending, waiting, enqOpen, jobVars, wrkVars, histVars>>
+  /\ UNCHANGED <<inVars, ctx, ctx2, callVars, chanVars, ready, ongoing, pending, waiting, enqOpen, jobVars, wrkVars, histVars>>
 
 \* line 342: close(s.readyc)
 LoopCloseReady ==
   /\ lpc = "closeR" /\ readyClosed' = TRUE /\ lpc' = "closeF"
-  /\ UNCHANGED <<inVars, ctx, callVars, enq, enqClosed, donec, finClosed,
-                 ready, ongoing, pending, waiting, enqOpen, jobVars, wrkVars, histVars>>
+  /\ UNCHANGED <<inVars, ctx, ctx2, callVars, enq, enqClosed, donec, finClosed, ready, ongoing, pending, waiting, enqOpen, jobVars, wrkVars, histVars>>
 
 \* line 341: close(s.finishedc)
 LoopCloseFin ==
   /\ lpc = "closeF" /\ finClosed' = TRUE /\ lpc' = "exit"
-  /\ UNCHANGED <<inVars, ctx, callVars, enq, enqClosed, donec, readyClosed,
-                 ready, ongoing, pending, waiting, enqOpen, jobVars, wrkVars, histVars>>
+  /\ UNCHANGED <<inVars, ctx, ctx2, callVars, enq, enqClosed, donec, readyClosed, ready, ongoing, pending, waiting, enqOpen, jobVars, wrkVars, histVars>>
 
 ----------------------------------------------------------------------------
 (* Workers (scheduler.go:128-158).                                          *)
@@ -256,7 +260,7 @@ LoopCloseFin ==
 \* line 141: range readyc ends because the channel was closed
 WorkerExit(w) ==
   /\ wpc[w] = "recv" /\ readyClosed /\ wpc' = [wpc EXCEPT ![w] = "exited"]
-  /\ UNCHANGED <<inVars, ctx, callVars, chanVars, loopVars, jobVars, wjob, wres, nextW, histVars>>
+  /\ UNCHANGED <<inVars, ctx, ctx2, callVars, chanVars, loopVars, jobVars, wjob, wres, nextW, histVars>>
 
 \* lines 145-153: context check, then invalid check, then run.  c is the value of the context
 \* the worker observes (WorkerCheck: the current one).
@@ -270,7 +274,8 @@ WorkerCheckAs(w, c) ==
      ELSE /\ wpc' = [wpc EXCEPT ![w] = "run"] /\ started' = [started EXCEPT ![j] = @ + 1]
           /\ UNCHANGED wres
   /\ UNCHANGED <<inVars, callVars, chanVars, loopVars, jobVars, wjob, nextW, endst, doomedH, owner, ctxAtClose>>
-WorkerCheck(w) == WorkerCheckAs(w, ctx) /\ UNCHANGED ctx
+CtxOfJob(j) == IF j \in Jobs /\ jctx[j] = 2 THEN ctx2 ELSE ctx
+WorkerCheck(w) == WorkerCheckAs(w, CtxOfJob(wjob[w])) /\ UNCHANGED <<ctx, ctx2>>
 
 \* line 152: the job body ends with outcome o:
 \*   "ok" (returns nil), "err" (returns an error), "goexit" (runtime.Goexit, the
@@ -289,6 +294,7 @@ WorkerRunEnd(w, o) ==
      /\ IF o = "cancel" /\ ctx = "live"
         THEN ctx' = "done" /\ doomedH' = {k \in DoomedNow : k # j} \* j itself has started
         ELSE UNCHANGED <<ctx, doomedH>>
+     /\ ctx2' = ctx2
   /\ UNCHANGED <<inVars, callVars, chanVars, loopVars, jobVars, wjob, nextW, started, owner, ctxAtClose>>
 
 \* line 155: donec <- res (cap N); the worker goes back to `range readyc`
@@ -297,8 +303,7 @@ WorkerSend(w) ==
   /\ donec' = Append(donec, <<wjob[w], wres[w]>>)
   /\ wpc' = [wpc EXCEPT ![w] = "recv"] /\ wjob' = [wjob EXCEPT ![w] = 0] /\ wres' = [wres EXCEPT ![w] = NOERR]
   /\ owner' = [owner EXCEPT ![wjob[w]] = "chan"]
-  /\ UNCHANGED <<inVars, ctx, callVars, enq, enqClosed, readyClosed, finClosed, loopVars, jobVars, nextW,
-                 started, endst, doomedH, ctxAtClose>>
+  /\ UNCHANGED <<inVars, ctx, ctx2, callVars, enq, enqClosed, readyClosed, finClosed, loopVars, jobVars, nextW, started, endst, doomedH, ctxAtClose>>
 
 \* lines 137-138: a dying worker reports the failure and starts its replacement
 WorkerDSend(w) ==
@@ -309,8 +314,7 @@ WorkerDSend(w) ==
   /\ nextW' = nextW + 1
   /\ wjob' = [wjob EXCEPT ![w] = 0] /\ wres' = [wres EXCEPT ![w] = NOERR]
   /\ owner' = [owner EXCEPT ![wjob[w]] = "chan"]
-  /\ UNCHANGED <<inVars, ctx, callVars, enq, enqClosed, readyClosed, finClosed, loopVars, jobVars,
-                 started, endst, doomedH, ctxAtClose>>
+  /\ UNCHANGED <<inVars, ctx, ctx2, callVars, enq, enqClosed, readyClosed, finClosed, loopVars, jobVars, started, endst, doomedH, ctxAtClose>>
 
 ----------------------------------------------------------------------------
 LiveWorkers == {w \in Workers : wpc[w] \notin {"unborn", "dead"}}
@@ -325,7 +329,7 @@ LoopStep   == \/ \E w \in Workers : LoopDispatch(w)
 WorkerStep(w) == WorkerExit(w) \/ WorkerCheck(w) \/ WorkerRunEnd(w, outcome[wjob[w]])
                  \/ WorkerSend(w) \/ WorkerDSend(w)
 
-Next == Cancel \/ CallerStep \/ LoopStep \/ (\E w \in Workers : WorkerStep(w)) \/ Finished
+Next == Cancel \/ Cancel2 \/ CallerStep \/ LoopStep \/ (\E w \in Workers : WorkerStep(w)) \/ Finished
 
 \* Fairness: everything except the environment's Cancel.
 Fair == /\ WF_vars(CallerStep) /\ WF_vars(LoopStep) /\ \A w \in Workers : WF_vars(WorkerStep(w))
@@ -370,7 +374,7 @@ Terminates == <>(cpc = nJ + 3)
 \* TLC's deadlock check does this: Finished is the only action enabled in a terminal state,
 \* and it is enabled only if AllQuiet.  LeakFree states the same as an invariant over
 \* quiescent states, for configs that switch the deadlock check off.
-Quiescent == ~ENABLED (Cancel \/ CallerStep \/ LoopStep \/ \E w \in Workers : WorkerStep(w))
+Quiescent == ~ENABLED (Cancel \/ Cancel2 \/ CallerStep \/ LoopStep \/ \E w \in Workers : WorkerStep(w))
 LeakFree == Quiescent => AllQuiet
 
 \* C07
@@ -381,7 +385,7 @@ FailFastSound ==
      /\ cres = <<"nil">> => \A j \in AJobs : started[j] = 1 /\ endst[j] = "ok"
      /\ cres[1] = "errs" => /\ Len(cres[2]) = 1
                             /\ \/ \E j \in AJobs : FailedJob(j) /\ cres[2][1] = TokOfFailed(j)
-                               \/ cres[2][1] = CTXERR /\ ctx = "done"
+                               \/ cres[2][1] = CTXERR /\ (ctx = "done" \/ ctx2 = "done")
      /\ cres = <<"ctx">> => ctx = "done"
 
 \* C08
@@ -397,9 +401,9 @@ CoeExact ==
         /\ \A j \in F : endst[j] = "err" => Cardinality({i \in DOMAIN es : es[i] = ErrOf(j)}) = 1
         /\ INVERR \notin RangeOf(es)                                \* the sentinel never shows
         /\ Len(es) - Len(NonCtx(es)) <= Cardinality({j \in AJobs : started[j] = 0})
-        /\ (Len(es) > Len(NonCtx(es)) => ctx = "done")
+        /\ (Len(es) > Len(NonCtx(es)) => (ctx = "done" \/ ctx2 = "done"))
         /\ \A j \in AJobs : started[j] = 1 => EndedJ(j)             \* the loop waited for everything
-        /\ (ctx = "live" => \A j \in AJobs : (started[j] = 1) = TransOK(j))
+        /\ ((ctx = "live" /\ ctx2 = "live") => \A j \in AJobs : (started[j] = 1) = TransOK(j))
 
 \* C09: a worker that has seen the context done never runs the job -- by construction of
 \* WorkerCheck; what needs checking is that no doomed job ever starts
@@ -422,12 +426,12 @@ JS == INSTANCE JobSys WITH
         st <- [j \in Jobs |-> IF started[j] = 0 THEN "pending"
                                ELSE IF endst[j] = "none" THEN "running" ELSE endst[j]],
         ctxMay <- (ctx = "done"), ctxDone <- (ctx = "done"),
-        doomed <- doomedH,
+        doomed <- doomedH, jc <- jctx, c2May <- (ctx2 = "done"), c2Done <- (ctx2 = "done"),
         ctxAtCall <- ctxAtClose,
         wait <- IF cpc <= nJ + 1 THEN "open" ELSE IF cpc = nJ + 2 THEN "called" ELSE "returned",
         res <- cres
 JSNext == \/ \E j \in Jobs : JS!Submit(j) \/ JS!Start(j) \/ \E o \in {"ok", "err", "exit"} : JS!End(j, o)
           \/ \E j \in Jobs : JS!EndCancel(j)
-          \/ JS!CancelNow \/ JS!WaitCall \/ JS!WaitReturn(cres')
+          \/ JS!CancelNow \/ JS!Cancel2Now \/ JS!WaitCall \/ JS!WaitReturn(cres')
 Refines == JS!JInit /\ [][JSNext]_(JS!jvars)
 =============================================================================
